@@ -813,7 +813,13 @@ cr!(mc::NewChannelReqCreator, |c, f, v| match f {
         1
     }
     "DrRange" => {
-        c.set_data_rate_range(u(v));
+        // every admissible range (max >= min) goes through the typed constructor the API offers, the rest as the raw octet
+        let b = u(v);
+        if (b >> 4) >= (b & 0x0f) {
+            c.set_data_rate_range(lorawan::types::DataRateRange::new_range((b & 0x0f).into(), (b >> 4).into()));
+        } else {
+            c.set_data_rate_range(b);
+        }
         1
     }
     _ => nosetter(f),
